@@ -34,7 +34,12 @@ def gen(rng, tier):
         cases.append(Case("cli.new_vanity %s %s %s %s %s" % (hx("12"), hx("0x" + rng.choice("0123456789abcdefABCDEF")), pw, sel, stream(rng, 250, 16)), tags=("model", "selector"), runner="cli", meta={"threads": 0}))
     # vanity passphrases with blanks at the ends, invisible blanks, characters a layer might rewrite: the search must use
     # exactly the passphrase `address --password` will be given (the model derives with the passphrase verbatim)
-    for pw in [" pw", "pw ", "p w\t", " ", "\u00a0x\u00a0", "  both  ", "\u3000", "nl\n", "under_score", "-dash", "=eq", "é", "e\u0301", "ｐ"]:
+    # … and passphrases that look like something else to a command line (`-` for "standard input", `--`, an option name,
+    # @file, ~, $VAR, a path, null / none): a passphrase is text, whatever it looks like; and ones that are not in NFKD
+    # form (precomposed, full-width, ligature): the search must normalise exactly as the other commands do
+    for pw in [" pw", "pw ", "p w\t", " ", "\u00a0x\u00a0", "  both  ", "\u3000", "nl\n", "under_score", "-dash", "=eq", "é", "e\u0301", "ｐ",
+               "-", "--", "-x", "--vanity-password", "@-", "@/etc/hostname", "~", "$HOME", "${PASSWORD}", "/dev/stdin", "null", "none", "0", "false", "\\", "''", '""',
+               "café", "ｐｗ", "ﬁ", "Å", "²", "ǆ"]:
         cases.append(Case("cli.new_vanity %s %s %s default %s" % (hx("12"), hx("0x" + rng.choice("0123456789abcdefABCDEF")), hx(pw), stream(rng, 250, 16)), tags=("model", "passphrase-verbatim"), runner="cli", meta={"threads": 0}))
     # longer prefixes over short streams.  (a) a random prefix of 3..7, 39, 40, 41 digits: the address of no entry starts
     # with it (with overwhelming probability), so the source runs dry and the command fails — a matcher that looks at only
@@ -86,7 +91,8 @@ def gen(rng, tier):
             cases.append(Case("cli.new_vanity %s %s - %s %s" % (hx("12"), hx("0x1"), sel, stream(rng, 3, 16)), tags=("model", "bad-selector"), runner="cli", meta={"threads": t, "timeout": 30}))
     # acceptance of the prefix text alone (no search): every printable ASCII character in the first and the
     # second position of a byte pair and as the odd nibble, plus a few non-ASCII ones
-    chars = [chr(c) for c in range(0x20, 0x7f)] + ["é", "٣", "Ａ", "\t"]
+    # (and every control character: folding the case of a byte with `| 0x20` maps 0x10..0x19 onto the digits)
+    chars = [chr(c) for c in range(0x01, 0x100) if c != 0x7f] + ["\x7f", "٣", "Ａ", "\u0660", "\uff10", "\u2170"]
     for ch in chars:
         for pat in ("0x%s1", "0x1%s", "0x%s", "0xab%sc", "0xab%s"):
             cases.append(Case("cli.prefix_parse " + hx(pat % ch), tags=("prefix-parse",), runner="cli", meta={}, nontrivial=True))
